@@ -23,6 +23,13 @@ statement, (2) the error code / data the statement returns, (3) the FILES output
                  error leaves the directory unchanged; a successful create yields at most one new file,
                  whose host name has no blank at an edge of trunk or extension (e.g. after clipping
                  "ABCDEFG HI.TXT"), and which the same name AND re-capitalisations open again with the same data.
+                 The same raw name then goes through the statements that apply the default extension (SAVE
+                 [,A|,P] then LOAD / RUN "file" / CHAIN / MERGE; BSAVE then BLOAD), with the data-file statement
+                 as reference: rejected there -> rejected here, nothing created; created H there -> accepted
+                 here, creating H (name has a dot) or H.BAS (no dot), and read back under the same spelling and
+                 re-capitalisations. Existing programs are also read (LOAD/RUN/CHAIN/MERGE) and overwritten (SAVE)
+                 under re-capitalised spellings, dot-less and with extension, padded with trailing blanks whenever
+                 the interpreter accepts the padded full name in OPEN ... FOR INPUT.
 """
 import os
 import random
@@ -49,7 +56,9 @@ META = {
         'the empty name; host files whose names are not legal 8.3 names (long, forbidden characters, non-ASCII) must '
         'be LISTED (entry count) but no name is required to open them; host names that differ only in case are not '
         'generated (ambiguous on a case-sensitive host). Which error a missing file gives is not checked. '
-        'BSAVE/BLOAD default extensions are not pinned by the statement and not tested.'),
+        'Which extension BSAVE gives a dot-less name is not pinned (only that BLOAD finds the file again and that BSAVE '
+        'accepts exactly the names OPEN accepts). Unpinned name shapes are compared differentially: the statements that '
+        'apply the default extension must accept, reject and map a name as the data-file statement OPEN does.'),
     'rule': ('case = (operation, DOS name as spelled, names alive in the mount); distinct by that tuple; '
              'non-trivial = the statement was executed and the host directory / returned data were compared'),
     'design_ref': 'DESIGN.md section 4 C28',
@@ -58,7 +67,10 @@ META = {
     'require_counters': {'any': ['files_created', 'recap_opens_ok', 'recap_kills_ok', 'recap_renames_ok',
                                  'recap_files_listed', 'bas_extension_added', 'bas_extension_not_added',
                                  'illegal_names_rejected', 'dot_adjacent_blank_rejected', 'files_listings_compared',
-                                 'listed_names_reopened']},
+                                 'listed_names_reopened', 'program_read_by_load', 'program_read_by_run',
+                                 'program_read_by_chain', 'program_read_by_merge', 'recap_resaves_ok',
+                                 'padded_program_names_ok', 'special_program_names_saved',
+                                 'special_program_names_rejected_like_data', 'special_bsave_bload_ok']},
 }
 
 LETTERS = b'ABCDEFGHIJKLMNOPQRSTUVWXYZ'
@@ -393,7 +405,8 @@ class Mount(object):
             return False
         dotted = b'.' in name
         host = (up(name) + (b'' if dotted else b'.BAS')).decode('ascii')
-        self.model[host] = {'lines': None, 'prog': marker, 'protected': variant == b',P', 'saved_as': name}
+        self.model[host] = {'lines': None, 'prog': marker, 'protected': variant == b',P', 'ascii': variant == b',A',
+                            'saved_as': name}
         if self.check_host('after SAVE %r%s' % (name, variant.decode()), case, name):
             res.count('files_created')
             res.count('bas_extension_not_added' if dotted else 'bas_extension_added')
@@ -432,7 +445,26 @@ class Mount(object):
         self.check_host('after OPEN FOR INPUT', case, sp)
         return True
 
+    LOADERS = {'load': b'LOAD N$', 'run': b'RUN N$', 'chain': b'CHAIN N$', 'merge': b'MERGE N$'}
+
+    def padding(self, rng, full_spelling, case):
+        """
+        Trailing blanks for a spelling, or b''. Blanks after a name are not pinned by the statement, so they are
+        used only when the interpreter itself treats the padded spelling as the same name in a data-file
+        statement (OPEN <full name + blanks> FOR INPUT succeeds): the statements that apply the default
+        extension must then treat it as the same name too.
+        """
+        if rng.random() >= 0.35:
+            return b''
+        deco = bytes(rng.choice(b'   \t') for _ in range(rng.randint(1, 3)))
+        code, out = self.ex(b'OPEN N$ FOR INPUT AS 1', case, N=full_spelling + deco)
+        if code != 0:
+            self.res.count('padded_spelling_not_accepted_for_data_files')
+            return b''
+        return deco
+
     def load(self, rng, host):
+        """LOAD / RUN "file" / CHAIN / MERGE of an existing program under a re-capitalised (and padded) spelling."""
         res = self.res
         m = self.model[host]
         hb = host.encode('ascii')
@@ -440,18 +472,24 @@ class Mount(object):
         if hb.endswith(b'.BAS'):
             forms.append(hb[:-4])          # dot-less spelling gets the default extension
         sp = recap(rng, rng.choice(forms))
-        case = {'op': 'load', 'name': sp, 'host': host, 'alive': sorted(self.model)}
-        res.case(('load', sp, tuple(sorted(self.model))))
+        kinds = ['load', 'load', 'run', 'chain'] + (['merge'] if m.get('ascii') else [])
+        kind = rng.choice(kinds)
+        case = {'op': kind, 'name': sp, 'host': host, 'alive': sorted(self.model)}
+        deco = self.padding(rng, recap(rng, hb), case)
+        sp += deco
+        case['name'] = sp
+        res.case((kind, sp, tuple(sorted(self.model))))
         try:
             self.box.ex(b'NEW')
         except self.harness.Internal as e:
             res.violation(e.key, str(e), case)
             return False
-        code, out = self.ex(b'LOAD N$', case, N=sp)
+        code, out = self.ex(self.LOADERS[kind], case, N=sp)
         if code is None:
             return False
         if code != 0:
-            res.violation('recap:load-failed', 'program saved as %s cannot be loaded as %r: error %d' % (host, sp, code), case)
+            key = 'defext:padded-name-accepted-as-data-file-rejected-as-program-file' if deco else 'recap:load-failed'
+            res.violation(key, 'program saved as %s cannot be read by %s %r: error %d' % (host, kind.upper(), sp, code), case)
             return False
         if not m['protected']:
             try:
@@ -460,16 +498,59 @@ class Mount(object):
                 res.violation(e.key, str(e), case)
                 return False
             if m['prog'] not in listing:
-                res.violation('recap:load-wrong-program', 'LOAD %r loaded %r, expected marker %r' % (sp, listing[:80], m['prog']), case)
+                res.violation('recap:load-wrong-program', '%s %r loaded %r, expected marker %r' % (kind.upper(), sp, listing[:80], m['prog']), case)
                 return False
         try:
             self.box.ex(b'NEW')
         except self.harness.Internal as e:
             res.violation(e.key, str(e), case)
         res.count('recap_loads_ok')
+        res.count('program_read_by_' + kind)
         if b'.' not in sp:
             res.count('loads_by_dotless_name')
+        if deco:
+            res.count('padded_program_names_ok')
         return True
+
+    def resave(self, rng, host):
+        """SAVE over an existing program under a re-capitalised (and padded) spelling: same host file, no second one."""
+        res = self.res
+        m = self.model[host]
+        hb = host.encode('ascii')
+        forms = [hb]
+        if hb.endswith(b'.BAS'):
+            forms.append(hb[:-4])
+        sp = recap(rng, rng.choice(forms))
+        case = {'op': 'resave', 'name': sp, 'host': host, 'alive': sorted(self.model)}
+        deco = self.padding(rng, recap(rng, hb), case)
+        sp += deco
+        case['name'] = sp
+        variant = rng.choice([b'', b'', b',A', b',P'])
+        res.case(('resave', sp, variant, tuple(sorted(self.model))))
+        self.serial += 1
+        marker = b'VFMARK%d' % self.serial
+        try:
+            self.box.ex(b'NEW')
+            self.box.ex(b'10 REM ' + marker)
+            self.box.ex(b'20 A=%d' % self.serial)
+        except self.harness.Internal as e:
+            res.violation(e.key, str(e), case)
+            return False
+        code, out = self.ex(b'SAVE N$' + variant, case, N=sp)
+        if code is None:
+            return False
+        if code != 0:
+            key = 'defext:padded-name-accepted-as-data-file-rejected-as-program-file' if deco else 'recap:save-over-existing-failed'
+            res.violation(key, 'SAVE %r over existing %s gave error %d' % (sp, host, code), case)
+            self.check_host('after failed SAVE over existing', case, sp)
+            return False
+        m.update({'prog': marker, 'protected': variant == b',P', 'ascii': variant == b',A'})
+        if self.check_host('after SAVE %r over existing %s' % (sp, host), case, sp):
+            res.count('recap_resaves_ok')
+            if deco:
+                res.count('padded_program_names_ok')
+            return True
+        return False
 
     def append(self, rng, host):
         res = self.res
@@ -731,6 +812,153 @@ class Mount(object):
             else:
                 res.count('special_names_reopened')
         self._cleanup(before)
+        if cls != 'device-name':
+            ok = self.special_program(rng, name, cls, code, new) and ok
+        return ok
+
+    def special_program(self, rng, name, cls, data_code, data_new):
+        """
+        The same raw name through the statements that apply the default extension (SAVE, then LOAD / RUN /
+        CHAIN / MERGE; BSAVE, then BLOAD). The reference is what the data-file statement just did with it:
+          rejected there  -> rejected here as well, nothing created;
+          created H there -> accepted here, creating H (name has a dot) or H.BAS (no dot), and the program is
+                             read back under the same spelling and re-capitalisations of it.
+        """
+        res = self.res
+        if data_code == 0 and len(data_new) != 1:
+            return True                 # nothing comparable (went to a device)
+        accepted = data_code == 0
+        dotted = b'.' in name
+        ok = True
+        before = self.host()
+        variant = rng.choice([b'', b'', b',A', b',P'])
+        case = {'op': 'special-program-' + cls, 'name': name, 'variant': variant,
+                'data_file_result': sorted(data_new) if accepted else 'error %d' % data_code}
+        res.case(('special-program', cls, name, variant))
+        self.serial += 1
+        marker = b'VFMARK%d' % self.serial
+        try:
+            self.box.ex(b'NEW')
+            self.box.ex(b'10 REM ' + marker)
+            self.box.ex(b'20 A=%d' % self.serial)
+        except self.harness.Internal as e:
+            res.violation(e.key, str(e), case)
+            return False
+        code, out = self.ex(b'SAVE N$' + variant, case, N=name)
+        if code is None:
+            self._cleanup(before)
+            return False
+        new = self.host() - before
+        res.count('special_program_names_tried')
+        if not accepted:
+            if code == 0 or new:
+                res.violation('defext:name-rejected-as-data-file-accepted-as-program-file',
+                              'OPEN %r FOR OUTPUT gave error %d, but SAVE %r gave %s and created %r' % (
+                                  name, data_code, name, 'no error' if code == 0 else 'error %d' % code, sorted(new)), case)
+                ok = False
+            else:
+                res.count('special_program_names_rejected_like_data')
+        elif code != 0:
+            res.violation('defext:name-accepted-as-data-file-rejected-as-program-file',
+                          'OPEN %r FOR OUTPUT created %r, but SAVE %r gives error %d' % (name, sorted(data_new), name, code), case)
+            ok = False
+            if new:
+                res.violation('special:%s-error-but-file-created' % cls, 'SAVE %r gave error %d but left %r' % (name, code, sorted(new)), case)
+        else:
+            h = sorted(data_new)[0]
+            want = h if dotted else h + '.BAS'
+            if new != {want}:
+                if not dotted and new == {h}:
+                    key = 'bas:extension-not-added-to-dotless-name'
+                elif dotted and new == {h + '.BAS'}:
+                    key = 'bas:extension-added-to-dotted-name'
+                else:
+                    key = 'defext:program-file-mapped-to-other-host-name-than-data-file'
+                res.violation(key, 'OPEN %r FOR OUTPUT created %r; SAVE %r created %r, expected %r' % (
+                    name, h, name, sorted(new), want), case)
+                ok = False
+            else:
+                res.count('special_program_names_saved')
+                kinds = ['load', 'run', 'chain'] + (['merge'] if variant == b',A' else [])
+                for sp, what in ((name, 'same-name'), (recap(rng, name), 'recap'), (up(name), 'recap'), (name.lower(), 'recap')):
+                    kind = rng.choice(kinds)
+                    try:
+                        self.box.ex(b'NEW')
+                    except self.harness.Internal as e:
+                        res.violation(e.key, str(e), case)
+                        ok = False
+                        break
+                    code2, out2 = self.ex(self.LOADERS[kind], case, N=sp)
+                    if code2 is None:
+                        ok = False
+                        break
+                    listing = b''
+                    if code2 == 0 and variant != b',P':
+                        try:
+                            listing = self.box.ex(b'LIST')
+                        except self.harness.Internal as e:
+                            res.violation(e.key, str(e), case)
+                            ok = False
+                            break
+                    if code2 != 0 or (variant != b',P' and marker not in listing):
+                        res.violation('defext:%s-saved-program-not-read-back-by-%s' % (cls, what),
+                                      'SAVE %r created %r, but %s %r gives %s' % (
+                                          name, want, kind.upper(), sp,
+                                          ('error %d' % code2) if code2 else ('program %r' % listing[:60])), case)
+                        ok = False
+                        break
+                    res.count('program_read_by_' + kind)
+                else:
+                    res.count('special_program_names_reloaded')
+        try:
+            self.box.ex(b'NEW')
+        except self.harness.Internal:
+            pass
+        self._cleanup(before)
+        if rng.random() < 0.5:
+            ok = self.special_bsave(rng, name, cls, data_code, accepted) and ok
+        return ok
+
+    def special_bsave(self, rng, name, cls, data_code, accepted):
+        """BSAVE / BLOAD with the same raw name: accepted exactly when the data-file statement accepted it; the one
+        file BSAVE creates (its extension is not pinned) is found again by BLOAD under re-capitalisations."""
+        res = self.res
+        before = self.host()
+        case = {'op': 'special-bsave-' + cls, 'name': name}
+        res.case(('special-bsave', cls, name))
+        ok = True
+        code, out = self.ex(b'DEF SEG=&HB800:BSAVE N$,0,8', case, N=name)
+        if code is None:
+            self._cleanup(before)
+            return False
+        new = self.host() - before
+        if not accepted:
+            if code == 0 or new:
+                res.violation('defext:name-rejected-as-data-file-accepted-as-program-file',
+                              'OPEN %r FOR OUTPUT gave error %d, but BSAVE %r gave %s and created %r' % (
+                                  name, data_code, name, 'no error' if code == 0 else 'error %d' % code, sorted(new)), case)
+                ok = False
+        elif code != 0:
+            res.violation('defext:name-accepted-as-data-file-rejected-as-program-file',
+                          'OPEN %r FOR OUTPUT accepted the name, but BSAVE %r gives error %d' % (name, name, code), case)
+            ok = False
+        elif len(new) != 1:
+            res.violation('special:%s-several-files-created' % cls, 'BSAVE %r left %r' % (name, sorted(new)), case)
+            ok = False
+        else:
+            for sp in (name, recap(rng, name), up(name), name.lower()):
+                code2, out2 = self.ex(b'DEF SEG=&HB800:BLOAD N$,0', case, N=sp)
+                if code2 is None:
+                    ok = False
+                    break
+                if code2 != 0:
+                    res.violation('defext:%s-bsaved-file-not-bloaded-by-%s' % (cls, 'same-name' if sp == name else 'recap'),
+                                  'BSAVE %r created %r, but BLOAD %r gives error %d' % (name, sorted(new), sp, code2), case)
+                    ok = False
+                    break
+            else:
+                res.count('special_bsave_bload_ok')
+        self._cleanup(before)
         return ok
 
     def _cleanup(self, before):
@@ -822,18 +1050,19 @@ def plan(tier, seed):
     shards = [{'kind': 'directed_legal', 'part': i, 'parts': 3} for i in range(3)]
     shards += [{'kind': 'directed_illegal'}, {'kind': 'directed_special'}, {'kind': 'directed_files'}]
     if tier == 'quick':
-        for i in range(12):
-            shards.append({'kind': 'history', 'part': i, 'n': 80})
+        for i in range(15):
+            shards.append({'kind': 'history', 'part': i, 'n': 64})
         for i in range(2):
             shards.append({'kind': 'random_illegal', 'part': i, 'n': 1500})
-        shards.append({'kind': 'random_special', 'part': 0, 'n': 1500})
+        for i in range(3):
+            shards.append({'kind': 'random_special', 'part': i, 'n': 450})
     else:
         for i in range(32):
             shards.append({'kind': 'history', 'part': i, 'n': 1000})
         for i in range(6):
             shards.append({'kind': 'random_illegal', 'part': i, 'n': 15000})
-        for i in range(4):
-            shards.append({'kind': 'random_special', 'part': i, 'n': 15000})
+        for i in range(8):
+            shards.append({'kind': 'random_special', 'part': i, 'n': 7500})
     return shards
 
 
@@ -985,8 +1214,11 @@ def _history(spec, rng, res):
                     # a renamed program keeps an explicit extension so that it stays loadable by full name
                     new = gen_legal(rng, mt.taken(), dotted=True if mt.model[host]['prog'] else None)
                     ok = mt.rename(rng, host, new)
-                elif r < 0.96:
+                elif r < 0.93:
                     ok = mt.kill(rng, rng.choice(alive))
+                elif r < 0.96:
+                    progs = [h for h in alive if mt.model[h]['prog'] is not None]
+                    ok = mt.resave(rng, rng.choice(progs)) if progs else True
                 else:
                     name, why = gen_illegal(rng)
                     ok = mt.illegal(rng, name, why, rng.choice(ILLEGAL_OPS))
@@ -1009,8 +1241,8 @@ def _random_illegal(spec, rng, res):
                 res.sample({'kind': 'random_illegal', 'example': name, 'why': why})
 
 
-def gen_special(rng):
-    base = gen_legal(rng, ())
+def gen_special(rng, taken=()):
+    base = gen_legal(rng, taken)
     r = rng.randrange(9)
     if r == 0:
         return base + b'.' * rng.randint(1, 3) if b'.' not in base else base + b'.', 'trailing-dot'
@@ -1055,7 +1287,7 @@ def _random_special(spec, rng, res):
     while done < n:
         with Mount(res, rng, n_random_pre=2) as mt:
             for _ in range(300):
-                name, cls = gen_special(rng)
+                name, cls = gen_special(rng, mt.taken())
                 mt.special(rng, name, cls)
                 done += 1
                 if done >= n:
